@@ -8,6 +8,15 @@ V_ASSIGNS(g_set->len, g.bstins_calls, g.bstins_arg)
 V_ENSURES(g.bstins_calls == V_OLD(g.bstins_calls) + 1 && __CPROVER_pointer_equals(g.bstins_arg, data) && V_RET == (g_key_present ? -EEXIST : g_bstins_ret)
           && g_set->len == V_OLD(g_set->len) + (V_RET == 0 ? 1 : 0))
 ;
+#ifdef V_SRCREG_UNIT
+/* (in the registration unit the only removal is that of the source which has just been inserted and could not be polled) */
+V_CONTRACT
+int m_bst_remove(m_bst_t *l, void *data)
+V_REQUIRES(l == g_set && data != NULL && data == g.bstins_arg)
+V_ASSIGNS(g_set->len, g.bstrm_calls)
+V_ENSURES(V_RET == 0 && g.bstrm_calls == V_OLD(g.bstrm_calls) + 1 && g_set->len == V_OLD(g_set->len) - 1)
+;
+#else
 V_CONTRACT
 int m_bst_remove(m_bst_t *l, void *data)
 V_REQUIRES(l == g_set && data != NULL && V_R_OK(data, sizeof(ev_src_t)))
@@ -16,6 +25,7 @@ V_ENSURES(g.bstrm_calls == V_OLD(g.bstrm_calls) + 1 && V_RET == (g_key_present ?
           && g.bstrm_fd == ((ev_src_t *)data)->fd_src.fd && g.bstrm_ns == ((ev_src_t *)data)->tmr_src.its.ns && g.bstrm_signo == ((ev_src_t *)data)->sgn_src.sgs.signo
           && g.bstrm_pid == ((ev_src_t *)data)->pid_src.pid.pid)
 ;
+#endif
 V_CONTRACT
 int poll_set_new_evt(poll_priv_t *priv, ev_src_t *tmp, const enum op_type flag)
 V_REQUIRES(priv == &g_ctx->ppriv && tmp != NULL)
@@ -49,7 +59,7 @@ V_CONTRACT
 int register_mod_src(m_mod_t *mod, m_src_types type, const void *src_data, m_src_flags flags, const void *userptr)
 V_REQUIRES(V_SRCMOD_OK && src_data != NULL && V_R_OK(src_data, 32))
 V_ASSIGNS(g_mod->tb.tokens, g_mod->stats.last_seen, g_mod->stats.action_ctr, g.fetch_calls, g_set->len, g.bstins_calls, g.bstins_arg, g.createsrc_calls, g.createsrc_flags, g.createsrc_type, g.createsrc_up,
-          g.tick_poll_calls, g.tick_poll_flag, g.newevt_src, g_errno, g.starttask_calls, g.unref_calls, g.unref_arg, g.unref_arg_prev)
+          g.tick_poll_calls, g.tick_poll_flag, g.newevt_src, g_errno, g.starttask_calls, g.unref_calls, g.unref_arg, g.unref_arg_prev, g.bstrm_calls)
 /* rate limit first: with no token left the call is refused and changes nothing */
 V_ENSURES(V_IMP(V_OLD(g_mod->tb.tokens) == 0, V_RET == -EAGAIN && g.createsrc_calls == V_OLD(g.createsrc_calls) && g.bstins_calls == V_OLD(g.bstins_calls) && g_set->len == V_OLD(g_set->len)))   /*@C18.no-token-call-refused-with-EAGAIN*/
 /* more than one priority requested: bad parameters, no trace in the set, nothing created */
@@ -66,11 +76,15 @@ V_ENSURES(V_IMP(V_OLD(g_mod->tb.tokens) > 0 && (V_PRIO(flags) == 0 || V_PRIO_ONE
                 && g.unref_calls == V_OLD(g.unref_calls) + 1 && g.unref_arg == g.bstins_arg))                                                      /*@C09.present-key-refused-with-EEXIST-without-effect*/
 /* a new key joins the set; it is polled at once iff its module is RUNNING (sources of IDLE/PAUSED/STOPPED modules wait for start/resume) */
 V_ENSURES(V_IMP(V_OLD(g_mod->tb.tokens) > 0 && (V_PRIO(flags) == 0 || V_PRIO_ONE(flags)) && !g_key_present && g_bstins_ret == 0,
-                g_set->len == V_OLD(g_set->len) + 1 && g.unref_calls == V_OLD(g.unref_calls)
+                (V_RET == 0 ? g_set->len == V_OLD(g_set->len) + 1 : g_set->len == V_OLD(g_set->len)) && g.unref_calls == V_OLD(g.unref_calls)
                 && g.tick_poll_calls == V_OLD(g.tick_poll_calls) + ((g_mod->state & M_MOD_RUNNING) ? 1 : 0)
                 && V_IMP(g_mod->state & M_MOD_RUNNING, g.tick_poll_flag == ADD && g.newevt_src == g.bstins_arg)
                 && V_IMP(!(g_mod->state & M_MOD_RUNNING), V_RET == 0 && g.starttask_calls == V_OLD(g.starttask_calls))
                 && V_IMP((g_mod->state & M_MOD_RUNNING) && g_pollinit_ret == 0 && type != M_SRC_TYPE_TASK, V_RET == 0)))                            /*@C09.new-key-registered-and-polled-iff-running*/
+/* a source that could not be handed to the poll plugin (or whose task could not be started) is refused AND taken out of the set again: a refused registration leaves no trace,
+ * the same call can be repeated and the reported counts stay the sizes of the sets */
+V_ENSURES(V_IMP(V_OLD(g_mod->tb.tokens) > 0 && (V_PRIO(flags) == 0 || V_PRIO_ONE(flags)) && !g_key_present && g_bstins_ret == 0 && (g_mod->state & M_MOD_RUNNING)
+                && (g_pollinit_ret != 0 || (type == M_SRC_TYPE_TASK && g_ips_ret != 0)), V_RET < 0 && g_set->len == V_OLD(g_set->len)))                          /*@C09.refused-registration-leaves-no-trace*/
 /* a task source of a RUNNING module is handed to the pool exactly once, and only after it was added to the poll set */
 V_ENSURES(V_IMP(V_OLD(g_mod->tb.tokens) > 0 && (V_PRIO(flags) == 0 || V_PRIO_ONE(flags)) && !g_key_present && g_bstins_ret == 0,
                 g.starttask_calls == V_OLD(g.starttask_calls) + (((g_mod->state & M_MOD_RUNNING) && g_pollinit_ret == 0 && type == M_SRC_TYPE_TASK) ? 1 : 0)))
